@@ -65,6 +65,13 @@ def is_recordish(x):
     return type(x).__name__ in KINDS
 
 
+# model-only fields (validity flags of Optional[list] memos) -> (real attribute, projection)
+MODEL_FIELDS = {
+    '_dns_address_cache_valid': ('_dns_address_cache', lambda v: v is not None),
+    '_addr_nsec_cache_valid': ('_get_address_and_nsec_records_cache', lambda v: v is not None),
+}
+
+
 class SpecError(Exception):
     pass
 
@@ -261,6 +268,10 @@ class Evaluator:
             return getattr(o, attr)
         if old and snap is not None and id(o) in snap.attrs and attr in snap.attrs[id(o)]:
             return snap.attrs[id(o)][attr]
+        if attr in MODEL_FIELDS and not hasattr(o, attr):
+            real_attr, fn = MODEL_FIELDS[attr]
+            base = snap.attrs[id(o)][real_attr] if (old and snap is not None and id(o) in snap.attrs and real_attr in snap.attrs[id(o)]) else getattr(o, real_attr)
+            return fn(base)
         v = getattr(o, attr)
         if old and snap is not None and isinstance(v, (dict, list, set, collections.deque)) and id(v) in snap.conts:
             return snap.conts[id(v)]
